@@ -255,12 +255,26 @@ def run(ctx):
     cases = corpus + gen
     results, out = run_impl(ctx, cases)
     if results is None:
-        # the implementation crashed or hung on some case: find it by bisection-free rerun of the corpus + small cases
-        verdict.add("harness-crash", "the stream package crashed or hung while running the scripts: " + out[-400:],
-                    {"kind": "crash", "output": out[-3000:]}, has_input=False)
+        # the implementation crashed or hung on some script (one process runs them all): find the first such script by bisection
+        lo, hi = 0, len(cases)                     # invariant: cases[:lo] run through, cases[:hi] do not
+        while hi - lo > 1:
+            mid = (lo + hi) // 2
+            r, _ = run_impl(ctx, cases[:mid])
+            if r is None:
+                hi = mid
+            else:
+                lo = mid
+        culprit = cases[hi - 1]
+        r1, out1 = run_impl(ctx, [culprit])
+        if r1 is None:
+            verdict.add("panic-or-stuck", "ChanReader/ChanWriter panicked or hung on a script of %d operations: %s" % (len(culprit["ops"]), " ".join(out1.split())[-300:]),
+                        {"kind": "failing-input", "case": culprit, "observed": {"panic": out1[-1500:]}})
+        else:
+            verdict.add("harness-crash", "the stream package crashed or hung while running the scripts (not reproduced on a single script): " + out[-400:],
+                        {"kind": "crash", "output": out[-3000:]}, has_input=False)
         rc, nv = verdict.finish()
         C.write_evidence(ctx, {"obligations": proof["obligations"], "discharged": proof["discharged"],
-                               "checker_cmd": "make Properties/C18.vo (coqc 8.16.1)"}, [], nv)
+                               "checker_cmd": "make Properties/C18.vo (coqc 8.16.1)", "evaluations": len(cases), "oracle_failures": 1}, [], nv)
         return rc
     ctx.log("ran %d scripts through the implementation" % len(cases))
 
